@@ -355,4 +355,17 @@ Mutations(t, sh) ==
 \* one-bit-off ids are really undefined (otherwise "rej" above would be wrong)
 MutationsSound == /\ \A a, b \in { "v3", "v4", "v5", "v6" } : FlipBit0(GroupId(a)) # GroupId(b)
                   /\ \A a, b \in BranchSet : FlipBit0(BranchId(a)) # BranchId(b) /\ BranchId(b) # << 1, 0, 0, 0 >>
+-----------------------------------------------------------------------------------------
+\* Values the public constructors accept but the version's format cannot carry (the writers document
+\* a refusal for each).  Faithfulness for them: write(x) fails, or parse(write(x)) = x - never bytes
+\* that parse to a different value.  `with` names the component added to an otherwise valid shape.
+Unrepresentable ==
+    { [ver |-> "v4", branch |-> "Nu5", with |-> "orchard"],            \* Orchard bundle in a v4 transaction
+      [ver |-> "v4", branch |-> "Nu6_3", with |-> "orchard"],
+      [ver |-> "v5", branch |-> "Nu5", with |-> "sprout"],             \* Sprout bundle in a v5 / v6 transaction
+      [ver |-> "v6", branch |-> "Nu6_3", with |-> "sprout"],
+      [ver |-> "v3", branch |-> "Overwinter", with |-> "sapling"],     \* Sapling bundle before Sapling
+      [ver |-> "sprout2", branch |-> "Sprout", with |-> "sapling"],
+      [ver |-> "v6", branch |-> "Nu6_3", with |-> "orchard_v2"],       \* pre-NU6.3 Orchard bundle version in v6:
+      [ver |-> "v6", branch |-> "Nu6_3", with |-> "orchard_insecure_v1"] }  \* bit 2 of the flags would change meaning
 =========================================================================================
